@@ -27,6 +27,8 @@ cc!(t, small_concat, U_I64);
 cc!(q, small_concat, U_LEN);
 cc!(t, small_concat, U_I32);
 cc!(q, small_concat, U_GROUP);
+cc!(q, small_concat, U_GROUP_NESTED);
+cc!(t, nested_concat, U_GROUP_NESTED);
 cc!(q, rep_concat, U_NONE);
 cc!(t, rep_concat, U_LEN);
 cc!(t, rep_concat, U_GROUP);
